@@ -557,6 +557,68 @@ def execute(w, lab, fault=None):
     return {"exc": exc, "excname": type(exc).__name__ if exc is not None else None, "runs": runs, "writes": list(w.ctl.writes), **extra}
 
 
+def alias_probe(w1, w2):
+    """DESTRUCTIVE (the two worlds are thrown away afterwards): the same further assignments on the original and on its pickle round trip, spelling
+    each top-level key with a value that is EQUAL to the one used so far but of another type (np.str_('a') for 'a', 1.0 for 1, ...): whatever
+    a manager makes of such a spelling, the restored one must make the same of it ("the same container contents as the original under any
+    further sequence of assignments").  -> None or a description of the first difference"""
+    def alias(k):
+        if isinstance(k, (bool, _np.generic)):
+            return None
+        if isinstance(k, str):
+            return _np.str_(k)
+        if isinstance(k, int):
+            return float(k)
+        if isinstance(k, float):
+            return int(k) if k == int(k) else _np.float64(k)
+        return None
+
+    def snap(w):
+        try:
+            d = sorted(map(str, w.m.dump()))
+        except Exception as ex:
+            d = "dump raised " + type(ex).__name__
+        return {l: repr(w.raw_get(l)) for l in w.uni["leaves"]}, d
+
+    def both(f, what):
+        outs = []
+        for w in (w1, w2):
+            try:
+                f(w)
+                exc = None
+            except Exception as ex:          # noqa
+                exc = type(ex).__name__
+            outs.append((exc, snap(w)))
+        if outs[0] != outs[1]:
+            return f"after {what}: original -> {outs[0]!r:.400}, restored -> {outs[1]!r:.400}"
+        return None
+
+    lab = w1.uni["label"]
+    if w1.uni["name"].endswith("/rebased") or w2.uni["name"].endswith("/rebased"):
+        return None
+    slots = []
+    for l, (lb, path) in sorted(w1.uni["loc"].items()):
+        if lb == lab and len(path) == 1 and path[0][0] == "item" and l in w1.uni["leaves"]:
+            ak = alias(path[0][1])
+            if ak is not None:
+                slots.append((l, path[0][1], ak))
+    for l, k, ak in slots:
+        def f(w, k=k, ak=ak):
+            cur = w.s[k]
+            w.sref[ak] = (cur + 1) if isinstance(cur, (int, float)) and not isinstance(cur, bool) else 5
+        why = both(f, f"{lab}[{ak!r}] = <value + 1>   (the slot spelled {k!r} so far)")
+        if why:
+            return why
+    for l, k, ak in slots:                                  # ... and then the ordinary spelling again: the dependants follow (or not) alike
+        def f2(w, k=k):
+            cur = w.s[k]
+            w.sref[k] = (cur + 2) if isinstance(cur, (int, float)) and not isinstance(cur, bool) else 6
+        why = both(f2, f"{lab}[{k!r}] = <value + 2>   (after the equal-key assignments)")
+        if why:
+            return why
+    return None
+
+
 def transfer(w, lab):
     """-> the world the behaviour continues in"""
     import pickle
